@@ -13,6 +13,7 @@ file is re-read through `Screen.load_h5` for the oracles (zero-row file of unkno
 compared -- rows, ids, mappings, masks -- with `Model/PrepPipeline.lean` run on the same screen, options and recorded log.
 End-to-end oracles are evaluated on the files alone against the raw input description.
 """
+import inspect
 import logging
 import math
 import os
@@ -39,14 +40,15 @@ SM_PARAM = {"sm-mergemin": "min_size", "sm-topbottom": "n_iterations", "sm-fixed
 
 
 class PipeRng(P.RecRng):
-    """the one generator object of a CLI run; `rng.choice(list of Plate objects)` is recorded by plate id"""
+    """the one generator object of a CLI run.  A draw among Plate objects is additionally noted by plate id (which plate the run
+    revealed is NOT taken from here but from what `reveal_plates` received, so the form of the draw does not matter)"""
 
-    def choice(self, a, size=None, replace=True, **kw):
+    def _record_choice(self, out, *args, **kwargs):
+        a = args[0] if args else kwargs.get("a")
         if isinstance(a, list) and a and hasattr(a[0], "selection_vector"):
-            out = self.g.choice(a, size, replace=replace, **kw)
             self.log.append(("first-plate", [int(x.plate_id) for x in a], int(out.plate_id)))
-            return out
-        return super().choice(a, size, replace=replace, **kw)
+            return
+        super()._record_choice(out, *args, **kwargs)
 
 
 class FileView:
@@ -201,6 +203,7 @@ class PipeOutcome:
         self.marks = {}
         self.inp = None
         self.layout_issues = []
+        self.wrapper_issues = []
         self.received = {}   # what each stage of the core RECEIVED from the CLI glue (HARDENING item 18)
 
 
@@ -250,11 +253,17 @@ def execute(case):
                     args = list(a) + list(k.values())
                     scr = [x for x in args if hasattr(x, "observation_mask") and hasattr(x, "plate_names")]
                     is_self = bool(a) and not hasattr(a[0], "observation_mask") and hasattr(a[0], "__dict__")
+                    frac = None
+                    try:     # arguments are identified by binding to the ORIGINAL's signature (positional or by name)
+                        frac = inspect.signature(fn).bind(*a, **k).arguments.get("fraction")
+                    except Exception as e:
+                        o.wrapper_issues.append("%s: cannot bind the call: %r" % (name, e))
                     rec_in = {"screen": snap_screen(scr[0]) if scr else None, "rng_is_the_one_generator": any(x is rec for x in args),
-                              "fraction": k.get("fraction"), "params": dict(vars(a[0])) if is_self else {}}
+                              "fraction": frac, "params": dict(vars(a[0])) if is_self else {}}
                     o.received[name] = rec_in
                 except Exception as e:       # the recording must never change the run
                     o.received[name] = {"error": repr(e)}
+                    o.wrapper_issues.append("%s: %r" % (name, e))
             try:
                 return fn(*a, **k)
             finally:
@@ -263,15 +272,26 @@ def execute(case):
                     o.marks[name][2:] = [len(rec.log), len(proxy.pops)]
         return w
 
-    def factory(args):
+    def factory(*a, **k):
         made["n"] += 1
         return rec
 
-    def get_class(package_name, class_name, base_class):
-        cls = getattr(R, class_name, None)
-        if cls is not None and not issubclass(cls, base_class):
-            raise ValueError("not a subclass")
-        return cls
+    orig_get_class = cli.introspection.get_class
+
+    def get_class(*a, **k):
+        # answered from batchie.retrospective (the genuine lookup imports torch / pyro); arguments found by binding to the original
+        try:
+            b = inspect.signature(orig_get_class).bind(*a, **k).arguments
+            cls = getattr(R, b["class_name"], None)
+            if cls is not None and not issubclass(cls, b["base_class"]):
+                raise ValueError("not a subclass")
+            if cls is not None:
+                return cls
+        except ValueError:
+            raise
+        except Exception as e:
+            o.wrapper_issues.append("get_class: %r" % (e,))
+        return orig_get_class(*a, **k)
 
     saved = [(R, "heapq", R.heapq), (cli, "get_prng_from_seed_argument", cli.get_prng_from_seed_argument),
              (cli.introspection, "get_class", cli.introspection.get_class),
@@ -296,11 +316,27 @@ def execute(case):
         cli.create_plate_balanced_holdout_set_among_masked_plates = marked("holdout", saved[3][2])
         real_filter = cli.filter_dataset_to_treatments_that_appear_in_at_least_one_combo
 
-        def filter_proxy(screen):
-            o.received["loaded"] = snap_screen(screen)          # what Screen.load_h5 handed to the first stage
-            out = real_filter(screen)
-            o.received["filtered"] = snap_screen(out)           # what every later stage starts from
+        def filter_proxy(*a, **k):
+            out = real_filter(*a, **k)
+            try:
+                screen = inspect.signature(real_filter).bind(*a, **k).arguments["screen"]
+                o.received["loaded"] = snap_screen(screen)      # what Screen.load_h5 handed to the first stage
+                o.received["filtered"] = snap_screen(out)       # what every later stage starts from
+            except Exception as e:
+                o.wrapper_issues.append("filter: %r" % (e,))
             return out
+
+        real_reveal = cli.reveal_plates
+
+        def reveal_proxy(*a, **k):
+            try:
+                ids = inspect.signature(real_reveal).bind(*a, **k).arguments["plate_ids"]
+                o.received["reveal"] = {"plate_ids": [int(x) for x in ids]}
+            except Exception as e:
+                o.wrapper_issues.append("reveal_plates: %r" % (e,))
+            return real_reveal(*a, **k)
+        saved.append((cli, "reveal_plates", real_reveal))
+        cli.reveal_plates = reveal_proxy
         saved.append((cli, "filter_dataset_to_treatments_that_appear_in_at_least_one_combo", real_filter))
         cli.filter_dataset_to_treatments_that_appear_in_at_least_one_combo = filter_proxy
         core.InitialRetrospectivePlateGenerator.generate_and_unmask_initial_plate = marked("init", saved[4][2])
@@ -347,6 +383,8 @@ def execute(case):
         shutil.rmtree(d, ignore_errors=True)
     o.log = rec.log
     o.pops = proxy.pops
+    o.rec = rec
+    o.wrapper_issues += list(proxy.unexpected)
     return o
 
 
@@ -382,8 +420,10 @@ def driver_line(case, o):
     else:
         glog, _ = seg("gen")
         toks += [p["gen"]["op"][4:]] + pad(op_tokens(p["gen"]["op"], p["gen"]["params"], glog, []))
+    # the plate the run revealed: what `reveal_plates` received (whatever form the draw had); older form: the recorded draw
     first = [e for e in log if e[0] == "first-plate"]
-    toks.append(str(first[0][2]) if first else "0")
+    rv = o.received.get("reveal", {}).get("plate_ids")
+    toks.append(str(rv[0]) if rv else (str(first[0][2]) if first else "0"))
     if p["sm"] is None:
         toks += ["none"] + pad([])
     else:
@@ -547,6 +587,10 @@ def oracles(res, case, o, prop):
 
 # ------------------------------------------------------------------ run / replay
 
+def rec_of(o):
+    return getattr(o, "rec", None)
+
+
 def run_stream(ctx, res, prop, lines, expect, cases):
     rng = ctx.subrng(prop, "pipeline")
     n = ctx.scale(36, 260, 92)
@@ -571,6 +615,10 @@ def run_stream(ctx, res, prop, lines, expect, cases):
             res.count("parent-error")
             continue
         res.count("pipeline.outcome." + ("error:" + type(o.err).__name__ if o.err is not None else "returned"))
+        if o.wrapper_issues or getattr(rec_of(o), "unexpected", None):
+            res.count("wrapper.unexpected-call")
+            P.tie(res, prop, case, "a recording wrapper of the harness met a call form it does not understand",
+                  (o.wrapper_issues + list(getattr(rec_of(o), "unexpected", [])))[:3])
         if o.layout_issues:
             res.count("layout.unexpected")
             P.tie(res, prop, case, "the harness's raw h5py access did not find the storage layout it knows", o.layout_issues[:2])
